@@ -20,6 +20,8 @@ ASSUMPTIONS = ['real-valued bounds compared with relative slack 1e-9 (band = acc
 def strategy(tier):
   big = 6 if tier == 'quick' else 8
   return st.one_of(G.search_spec(max_geos=big, min_geos=2, constraint_p=0.55),
+                   G.search_spec(max_geos=big, min_geos=3, constraint_p=0.5, elig_style='fixed-heavy', tight_sizes=True, allow_budget=False),
+                   G.search_spec(max_geos=big, min_geos=3, constraint_p=0.5, elig_style='all-treatment', tight_sizes=True, allow_budget=False),
                    G.search_spec(max_geos=big, min_geos=3, constraint_p=0.55, elig_style='none'),
                    G.search_spec(max_geos=big, min_geos=3, constraint_p=0.45, elig_style='mixed'))
 
